@@ -11,7 +11,7 @@ Lemma sqrt_one : sqrt 1 = 1. Proof. exact sqrt_1. Qed.
 (* the signed angle between two unit vectors: its cosine is their dot product, its sine their cross product *)
 Lemma angle_unit ux uy vx vy : ux * ux + uy * uy = 1 -> vx * vx + vy * vy = 1 ->
   let th := angle_gen AR ux uy vx vy in
-  cos th = ux * vx + uy * vy /\ sin th = ux * vy - uy * vx /\ - PI <= th <= PI.
+  cos th = ux * vx + uy * vy /\ sin th = ux * vy - uy * vx /\ - PI < th <= PI.
 Proof.
   intros Hu Hv. unfold angle_gen, AR.
   cbn [a_add a_sub a_mul a_div a_neg a_sqrt a_gt a_zero a_one a_two a_le a_ge a_lt a_pi a_twopi a_acos a_cos a_sin].
@@ -31,7 +31,7 @@ Proof.
   { assert (d = 1) by lra. assert (k = 0) by nra. destruct (Rlt_dec k 0); [lra|]. cbv iota.
     rewrite cos_0, sin_0. repeat split; lra. }
   assert (Hd' : -1 <= d <= 1) by lra.
-  pose proof (acos_bound d) as Hb.
+  assert (Hb : 0 < acos d < PI) by (apply acos_bound_lt; lra).
   assert (Hs : sin (acos d) = Rabs k).
   { rewrite sin_acos by exact Hd'. replace (1 - d²) with (k²) by (unfold Rsqr; lra). apply sqrt_Rsqr_abs. }
   destruct (Rlt_dec k 0) as [N|N]; cbv iota.
@@ -97,7 +97,7 @@ Qed.
 (* the sweep before the flag adjustment *)
 Let d0 := angle_gen AR ax ay bx by_.
 
-Lemma d0_spec : cos d0 = ax * bx + ay * by_ /\ sin d0 = ax * by_ - ay * bx /\ - PI <= d0 <= PI.
+Lemma d0_spec : cos d0 = ax * bx + ay * by_ /\ sin d0 = ax * by_ - ay * bx /\ - PI < d0 <= PI.
 Proof. destruct units as [Ua Ub]. exact (angle_unit ax ay bx by_ Ua Ub). Qed.
 
 Lemma dth_cases : (dth = d0 \/ dth = d0 + 2 * PI \/ dth = d0 - 2 * PI) /\
@@ -145,5 +145,102 @@ Qed.
 Theorem sweep_sign_and_extent :
   (sweep = true -> 0 <= dth <= 2 * PI) /\ (sweep = false -> - (2 * PI) <= dth <= 0).
 Proof. exact (proj2 dth_cases). Qed.
+
+(* ---- the large-arc flag ---- *)
+(* the primed centre in terms of the signed square root t of step 2: t <= 0 when large = sweep, t >= 0 otherwise *)
+Lemma centre_shape : exists t,
+  ac_cxp c = t * ac_rx c * ac_y1p c / ac_ry c /\ ac_cyp c = - t * ac_ry c * ac_x1p c / ac_rx c /\
+  (same = true -> t <= 0) /\ (same = false -> 0 <= t).
+Proof.
+  unfold c, arc_center_gen, AR. cbn [a_add a_sub a_mul a_div a_neg a_sqrt a_gt a_zero a_one a_two]. cbv zeta.
+  match goal with |- context [if (if Rgt_dec ?chk 1 then true else false) then _ else _] => destruct (Rgt_dec chk 1) as [G|G] end;
+    cbn [ac_rx ac_ry ac_cxp ac_cyp ac_x1p ac_y1p];
+    match goal with |- context [if (if Rgt_dec ?a 0 then true else false) then sqrt ?a else 0] =>
+      set (st := if (if Rgt_dec a 0 then true else false) then sqrt a else 0);
+      assert (Hst : 0 <= st) by (unfold st; destruct (Rgt_dec a 0); [apply sqrt_pos|lra]) end;
+    (exists (if same then - st else st); split; [reflexivity|]; split; [destruct same; unfold Rdiv; ring|];
+     split; intros ->; lra).
+Qed.
+
+Lemma cross_sign : exists t, (same = true -> t <= 0) /\ (same = false -> 0 <= t) /\
+  ax * by_ - ay * bx = 2 * t * (ac_x1p c * ac_x1p c / (ac_rx c * ac_rx c) + ac_y1p c * ac_y1p c / (ac_ry c * ac_ry c)).
+Proof.
+  destruct centre_shape as (t & Ex & Ey & T1 & T2). destruct radii_pos as [Prx Pry].
+  exists t. split; [exact T1|]. split; [exact T2|].
+  unfold ax, ay, bx, by_, ux, uy, vx, vy. fold c. rewrite Ex, Ey. field. split; lra.
+Qed.
+
+Lemma primed_nonzero : 0 < ac_x1p c * ac_x1p c / (ac_rx c * ac_rx c) + ac_y1p c * ac_y1p c / (ac_ry c * ac_ry c).
+Proof.
+  destruct radii_pos as [Prx Pry].
+  assert (H0 : 0 < ac_x1p c * ac_x1p c + ac_y1p c * ac_y1p c).
+  { pose proof (x1p_nonzero x1 y1 x2 y2 co si Hcs Hdist) as H. cbv zeta in H.
+    unfold c, arc_center_gen, AR. cbn [a_add a_sub a_mul a_div a_neg a_sqrt a_gt a_zero a_one a_two]. cbv zeta.
+    match goal with |- context [if (if Rgt_dec ?chk 1 then true else false) then _ else _] => destruct (Rgt_dec chk 1) end;
+      cbn [ac_x1p ac_y1p]; exact H. }
+  assert (A : 0 <= ac_x1p c * ac_x1p c / (ac_rx c * ac_rx c)) by (apply Rmult_le_pos; [nra|left; apply Rinv_0_lt_compat; nra]).
+  assert (B : 0 <= ac_y1p c * ac_y1p c / (ac_ry c * ac_ry c)) by (apply Rmult_le_pos; [nra|left; apply Rinv_0_lt_compat; nra]).
+  destruct (Req_dec (ac_x1p c) 0) as [Zx|Nx].
+  - assert (0 < ac_y1p c * ac_y1p c) by (rewrite Zx in H0; lra).
+    assert (0 < ac_y1p c * ac_y1p c / (ac_ry c * ac_ry c)) by (apply Rmult_lt_0_compat; [lra|apply Rinv_0_lt_compat; nra]). lra.
+  - assert (0 < ac_x1p c * ac_x1p c) by nra.
+    assert (0 < ac_x1p c * ac_x1p c / (ac_rx c * ac_rx c)) by (apply Rmult_lt_0_compat; [lra|apply Rinv_0_lt_compat; nra]). lra.
+Qed.
+
+(* the two unit vectors differ (the end points do), so the unadjusted sweep is not zero *)
+Lemma d0_nonzero : d0 <> 0.
+Proof.
+  intros Z. destruct d0_spec as (Cd & Sd & _). rewrite Z, cos_0 in Cd. rewrite Z, sin_0 in Sd.
+  destruct units as [Ua Ub].
+  (* dot = 1 and cross = 0 with unit vectors: a = b *)
+  assert (Hsq : (ax - bx) * (ax - bx) + (ay - by_) * (ay - by_) = 0).
+  { replace ((ax - bx) * (ax - bx) + (ay - by_) * (ay - by_))
+      with ((ax * ax + ay * ay) + (bx * bx + by_ * by_) - 2 * (ax * bx + ay * by_)) by ring. lra. }
+  assert (Eab : ax = bx /\ ay = by_).
+  { assert (0 <= (ax - bx) * (ax - bx)) by nra. assert (0 <= (ay - by_) * (ay - by_)) by nra.
+    assert ((ax - bx) * (ax - bx) = 0) by lra. assert ((ay - by_) * (ay - by_) = 0) by lra.
+    split; nra. }
+  destruct Eab as [E1 E2]. destruct radii_pos as [Prx Pry].
+  unfold ax, bx, ay, by_, ux, uy, vx, vy in E1, E2. fold c in E1, E2.
+  assert (X0 : ac_x1p c = 0).
+  { apply (Rmult_eq_compat_r (ac_rx c)) in E1. unfold Rdiv in E1. rewrite !Rmult_assoc, !Rinv_l, !Rmult_1_r in E1 by lra. lra. }
+  assert (Y0 : ac_y1p c = 0).
+  { apply (Rmult_eq_compat_r (ac_ry c)) in E2. unfold Rdiv in E2. rewrite !Rmult_assoc, !Rinv_l, !Rmult_1_r in E2 by lra. lra. }
+  pose proof primed_nonzero as P. rewrite X0, Y0 in P. unfold Rdiv in P. rewrite !Rmult_0_l in P. lra.
+Qed.
+
+(* the large-arc flag selects the sweep of magnitude at least pi, its absence the one of at most pi *)
+Theorem large_arc_flag (large : bool) : same = Bool.eqb large sweep ->
+  (large = true -> PI <= Rabs dth) /\ (large = false -> Rabs dth <= PI).
+Proof.
+  intros Hsame. destruct cross_sign as (t & T1 & T2 & Cr). destruct d0_spec as (_ & Sd & Hb). pose proof primed_nonzero as Pz.
+  pose proof d0_nonzero as Dz. pose proof PI_RGT_0 as Hpi.
+  set (W := ac_x1p c * ac_x1p c / (ac_rx c * ac_rx c) + ac_y1p c * ac_y1p c / (ac_ry c * ac_ry c)) in *.
+  assert (Hsin : sin d0 = 2 * t * W) by lra.
+  (* the sign of d0 follows the sign of t *)
+  assert (Hneg : t <= 0 -> d0 < 0 \/ d0 = PI).
+  { intros Ht. destruct (Rlt_dec d0 0) as [L|L]; [left; exact L|right].
+    destruct (Req_dec d0 PI) as [E|N]; [exact E|exfalso].
+    assert (0 < d0 < PI) by lra. pose proof (sin_gt_0 d0 ltac:(lra) ltac:(lra)). nra. }
+  assert (Hpos : 0 <= t -> 0 < d0).
+  { intros Ht. destruct (Rlt_dec 0 d0) as [L|L]; [exact L|exfalso].
+    assert (- PI < d0 < 0) by lra. pose proof (sin_lt_0_var d0 ltac:(lra) ltac:(lra)). nra. }
+  (* the adjustment *)
+  assert (Hd : dth = if sweep then (if Rlt_dec d0 0 then d0 + 2 * PI else d0) else (if Rgt_dec d0 0 then d0 - 2 * PI else d0)).
+  { unfold dth, arc_angles_gen. cbn [snd]. cbn [AR a_one a_zero a_div a_sub a_neg a_add a_lt a_gt a_twopi].
+    fold c. change ((ac_x1p c - ac_cxp c) / ac_rx c) with ax. change ((ac_y1p c - ac_cyp c) / ac_ry c) with ay.
+    change ((- ac_x1p c - ac_cxp c) / ac_rx c) with bx. change ((- ac_y1p c - ac_cyp c) / ac_ry c) with by_.
+    fold d0. destruct sweep; [destruct (Rlt_dec d0 0)|destruct (Rgt_dec d0 0)]; reflexivity. }
+  rewrite Hd. destruct large, sweep; cbn [Bool.eqb] in Hsame; split; intros Hl; try discriminate.
+  - (* large, sweep: t <= 0 *) destruct (Hneg (T1 Hsame)) as [L|E].
+    + destruct (Rlt_dec d0 0); [|lra]. rewrite Rabs_pos_eq by lra. lra.
+    + destruct (Rlt_dec d0 0); [lra|]. rewrite E, Rabs_pos_eq by lra. lra.
+  - (* large, no sweep: t >= 0 *) pose proof (Hpos (T2 Hsame)) as P. destruct (Rgt_dec d0 0); [|lra].
+    rewrite Rabs_left by lra. lra.
+  - (* small, sweep: t >= 0 *) pose proof (Hpos (T2 Hsame)) as P. destruct (Rlt_dec d0 0); [lra|]. rewrite Rabs_pos_eq by lra. lra.
+  - (* small, no sweep: t <= 0 *) destruct (Hneg (T1 Hsame)) as [L|E].
+    + destruct (Rgt_dec d0 0); [lra|]. rewrite Rabs_left by lra. lra.
+    + destruct (Rgt_dec d0 0); [|lra]. rewrite E. replace (PI - 2 * PI) with (- PI) by lra. rewrite Rabs_Ropp, Rabs_pos_eq by lra. lra.
+Qed.
 
 End Angles.
